@@ -1,0 +1,50 @@
+//go:build verif
+
+// Contracts for the verif build tag: //@ comment blocks read by /verif/gocv.
+
+package planner
+
+//@ func Planner.Plan
+//@ props C08 C10 C07
+//@ params ctx
+//@ returns plan, err
+//@ requires ctx != nil && ctx.Operation != nil && ctx.Schema != nil
+//@ ensures[plan] err == nil ==> plan != nil
+//@ modifies fresh, entries(map[hashKey]*QueryPlan), entries(map[hashKey]time.Time)
+//@ end
+
+//@ func (*CachedPlanner).Plan
+//@ props C14
+//@ returns plan, err
+//@ requires cp != nil && cp.cache != nil && cp.cacheTimers != nil && cp.executor != nil
+//@ requires forallT(k, hashKey, has(cp.cache, k) ==> cp.cache[k] != nil)
+//@ ensures[inv] forallT(k, hashKey, has(cp.cache, k) ==> cp.cache[k] != nil)
+//@ end
+
+//@ func (*CachedPlanner).hash
+//@ props C14
+//@ modifies-assumed fresh
+//@ end
+
+//@ func (*CachedPlanner).clean
+//@ props C14
+//@ requires cp != nil
+//@ ensures[inv] forallT(k, hashKey, has(cp.cache, k) ==> old(has(cp.cache, k)) && cp.cache[k] == old(cp.cache[k]))
+//@ modifies-assumed fresh, entries(map[hashKey]*QueryPlan), entries(map[hashKey]time.Time)
+//@ end
+
+//@ func (SequentialPlanner).Plan
+//@ props C07
+//@ modifies-assumed fresh
+//@ end
+
+//@ func (*QueryPlan).SetComputedValues
+//@ props C07 C08
+//@ requires qp != nil
+//@ ensures[self] result == qp
+//@ end
+
+//@ func (ScrubFields).Clean
+//@ props C07
+//@ modifies-assumed entries(map[string]interface{})
+//@ end
